@@ -350,6 +350,24 @@ func TestC06(t *testing.T) {
 		if k.mech == cs.MechCommit {
 			n = tierN(10, 60)
 		}
+		// deterministic boundary set of this system (incl. the next multiple of 16 bits, which is what a
+		// limb-aligned checker would enforce instead of the requested width)
+		var bnd []*big.Int
+		if k.width == 0 {
+			bnd = []*big.Int{new(big.Int).Sub(bigP, big.NewInt(1)), bigP, new(big.Int).Add(bigP, big.NewInt(1)), new(big.Int).Sub(pow2(64), big.NewInt(1)), pow2(64)}
+		} else {
+			al := uint(16 * ((k.width + 15) / 16))
+			bnd = []*big.Int{new(big.Int).Sub(pow2(uint(k.width)), big.NewInt(1)), pow2(uint(k.width)), new(big.Int).Add(pow2(uint(k.width)), big.NewInt(1)), new(big.Int).Sub(pow2(al), big.NewInt(1)), pow2(al), new(big.Int).Sub(bigR, big.NewInt(1))}
+		}
+		for _, v := range bnd {
+			v := v
+			r.Case(fmt.Sprintf("%s/%s/boundary", k.kind, k.mech), true, fmt.Sprint(k, v), func() any {
+				return map[string]any{"backend": k.kind.String(), "mechanism": k.mech.String(), "width": k.width, "v": v.String()}
+			})
+			if key, d := c06Compiled(k, v, nil); key != "" {
+				r.Fail(t, "C06/"+key, c06Replay{Backend: k.kind.String(), Mech: int(k.mech), Width: k.width, V: v.String()}, "%s", d)
+			}
+		}
 		rec.SetRapid(fmt.Sprintf("compiled/%v", k), n)
 		rapid.Check(t, func(rt *rapid.T) {
 			v := genRCValue(k.width).Draw(rt, "v")
